@@ -222,10 +222,11 @@ def _reset_per_call(eng, ev, field, chain):
     """the public entry that reaches this fill re-initialises the field unconditionally at its top level before anything
     else uses it (a per-call scratch table, not a cache across calls)"""
     from . import autocache
-    entry = chain[0].func if chain else ev.func
-    for st_ in entry.node.body:
-        if autocache._is_reset_stmt(st_, field):
-            return True
+    frames = [c.func for c in chain if getattr(c, "func", None) is not None] + [ev.func]
+    for fn_ in frames:
+        for st_ in fn_.node.body:
+            if autocache._is_reset_stmt(st_, field):
+                return True
     return False
 
 
@@ -259,15 +260,32 @@ def _auto_cache(eng, ev, l, chain=()):
     # dependences are rooted at the entry point; re-root them at the object that holds the field
     idx = list(l[1]).index(field)
     holder = (l[0], tuple(l[1][:idx]))
+    # what a KEYED memo entry was computed from is a matter of the function that fills it, not of who called it (the
+    # callers' loops decide whether a fill happens, not what is filled in): take the dependences from that function
+    # analysed on its own, where they are rooted at its `self`
+    if ev.wkind == "subscript" and ev.func.cls is not None and ev.func.kind == "method":
+        try:
+            s0 = eng.interp.run_entry(ev.func, cls_q)
+            w0 = [e for e in s0.events if e.kind == "write" and e.node is ev.node and e.value is not None]
+        except Exception:
+            w0 = []
+        if w0:
+            deps = set()
+            for e in w0:
+                deps |= set(all_deps(e.value)) | set(e.ctrl)
+                for a in e.args:
+                    deps |= set(all_deps(a))
+            holder = ("self", ())
+    eps_only = ("DELTA_EPS", holder) in deps and ("DELTA_SYM", holder) not in deps
     dep_fields = set()
     for d in deps:
         if isinstance(d, tuple) and len(d) == 2 and isinstance(d[1], tuple) and d[0] == holder[0] and \
                 d[1][:len(holder[1])] == holder[1] and len(d[1]) > len(holder[1]):
             dep_fields.add(d[1][len(holder[1])])
     dep_fields.discard(field)
-    key = (cls_q, field, tuple(sorted(dep_fields)))
+    key = (cls_q, field, tuple(sorted(dep_fields)), eps_only)
     if key not in _AUTO:
-        _AUTO[key] = autocache.judge(eng.prog, eng.abstract, cls_q, field, eng.interp, dep_fields or None)
+        _AUTO[key] = autocache.judge(eng.prog, eng.abstract, cls_q, field, eng.interp, dep_fields or None, eps_only=eps_only)
     verdict, why = _AUTO[key]
     if verdict is True and ev.kind == "write" and ev.value is not None:
         # a memo must be keyed by everything its value was computed from besides the object itself: a value that
@@ -621,6 +639,14 @@ def check_d2(eng, rep, d2_events, report_none=True):
                               site=site_of(prog, fi, node2 or fi.node))
                 continue
         ok, why, node = _restore_pairing(fi, subs, adds)
+        if not ok and not adds and any(not isinstance(d.value, ast.Constant) for d in subs if isinstance(d, ast.AugAssign)):
+            # `counters[..] -= step` with a variable step: the same function can be its own inverse (called again with
+            # step = -1 to undo); whether every call is undone is a matter of the callers the rule does not follow
+            rep.error("R4b", "C19.R4b-D2", fq, "scratch-restore:_remaining_lists",
+                      "the shared counters are updated by a variable amount (`%s`): the update may be undone by calling the "
+                      "same code with the opposite amount, which this rule cannot follow" % ast.unparse(subs[0])[:60],
+                      site=site_of(prog, fi, subs[0]))
+            continue
         if ok:
             rep.holds("R4b", "C19.R4b-D2", fq, "scratch-restore:_remaining_lists",
                       "every decrement is logged and the restore loop runs on every path to every exit")
@@ -742,13 +768,17 @@ def _restore_pairing(fi, subs, adds):
                 (s.target if isinstance(s, ast.AugAssign) else s.targets[0]).value) == log
             if is_call or is_tally:
                 got = {x.id for x in ast.walk(s) if isinstance(x, ast.Name)} - {log}
-                # a local that only names the logged key (`entry = (a, b); log.append(entry)`) stands for its parts
-                for _ in range(2):
-                    for prev in blk[:pos]:
-                        if isinstance(prev, ast.Assign) and len(prev.targets) == 1 and isinstance(prev.targets[0], ast.Name) \
-                                and prev.targets[0].id in got:
-                            got = (got - {prev.targets[0].id}) | {x.id for x in ast.walk(prev.value) if isinstance(x, ast.Name)}
-                if sorted(got) == idx_names:
+
+                def _expand(names_):
+                    # a local that only names something (`entry = (a, b)`, `row = self._f[a]`) stands for its parts
+                    names_ = set(names_)
+                    for _ in range(2):
+                        for prev in blk[:pos]:
+                            if isinstance(prev, ast.Assign) and len(prev.targets) == 1 and isinstance(prev.targets[0], ast.Name) \
+                                    and prev.targets[0].id in names_:
+                                names_ = (names_ - {prev.targets[0].id}) | {x.id for x in ast.walk(prev.value) if isinstance(x, ast.Name)}
+                    return names_ - {"self"}
+                if sorted(got) == idx_names or _expand(got) == _expand(idx_names):
                     logged = True
         if not logged:
             return False, "decrement is not recorded in the log %s the restore loop iterates" % log, d
